@@ -202,6 +202,24 @@ VH_AREA(fsim) {
                 }
                 out_q("fsim shots " + wire_circuit(comp) + " - " + ref_txt + " " + std::to_string(n2) + txt, "ok *");
             }
+            // the single-shot (tableau) simulator on the same noisy circuit: its records must be possible too (every noisy
+            // instruction is implemented a second time there); 3 word widths by case index
+            {
+                size_t n5 = 6;
+                std::string txt;
+                for (size_t s = 0; s < n5; s++) {
+                    std::mt19937_64 r5(rng.next());
+                    std::vector<bool> rec(stats.num_measurements);
+                    if (w == 0) { auto t = TableauSimulator<64>::sample_circuit(big, r5, 0); for (size_t q = 0; q < rec.size(); q++) rec[q] = t[q]; }
+                    else if (w == 1) { auto t = TableauSimulator<128>::sample_circuit(big, r5, 0); for (size_t q = 0; q < rec.size(); q++) rec[q] = t[q]; }
+                    else { auto t = TableauSimulator<256>::sample_circuit(big, r5, 0); for (size_t q = 0; q < rec.size(); q++) rec[q] = t[q]; }
+                    std::string m;
+                    for (size_t q = 0; q < stats.num_measurements; q++) m.push_back(rec[q] ? '1' : '0');
+                    txt += " " + (m.empty() ? std::string("-") : m) + " * *";
+                }
+                out_q("fsim shots " + wire_circuit(comp) + " - " + ref_txt + " " + std::to_string(n5) + txt, "ok *");
+                st.hit("tableau_simulator_records", n5);
+            }
             // measurements_to_detection_events on sampled and adversarial measurement tables with per-shot sweep bits
             if (stats.num_detectors + stats.num_observables > 0) {
                 size_t n3 = rng.pick(std::vector<size_t>{2, 66});
